@@ -152,7 +152,28 @@ func genHist(r *Rng, tier string, n int, emit func(string)) {
 		for i := 0; i < k; i++ {
 			m := Pick(cr, methods)
 			p := Pick(cr, pool)
-			switch x := cr.Intn(20); {
+			switch x := cr.Intn(22); {
+			case x >= 20:
+				// a write transaction with a few writes, aborted most of the time
+				var in []string
+				for j, nj := 0, 1+cr.Intn(4); j < nj; j++ {
+					gm, gp := Pick(cr, methods), Pick(cr, pool)
+					switch y := cr.Intn(10); {
+					case y < 4:
+						hid++
+						in = append(in, fmt.Sprintf("H:%s:%s:%d:%d", gm, hx(gp), Pick(cr, []int{0, 1, 2}), hid))
+					case y < 6:
+						hid++
+						in = append(in, fmt.Sprintf("U:%s:%s:%d:%d", gm, hx(gp), Pick(cr, []int{0, 1, 2}), hid))
+					case y < 8:
+						in = append(in, "D:"+gm+":"+hx(gp))
+					case y < 9:
+						in = append(in, "T:"+gm)
+					default:
+						in = append(in, "T:")
+					}
+				}
+				ops = append(ops, "G,"+Pick(cr, []string{"e", "e", "o"})+","+strings.Join(in, "&"))
 			case x < 10:
 				hid++
 				ops = append(ops, fmt.Sprintf("H,%s,%s,%d,%d", m, hx(p), Pick(cr, []int{0, 0, 1, 2}), hid))
